@@ -386,6 +386,10 @@ func dfsConfigs() []c11scn {
 		mk("p1,3", "p1,3|f1", "dfs:restore-vs-getfile"),
 		mk("p1,6", "p1,3|b1", "dfs:overwrite-vs-getbytes"),
 		mk("", "p1,2|f1", "dfs:first-put-vs-getfile"),
+		// an action whose output is EMPTY: the output file has to exist all the same ("once all writers have
+		// finished every stored ID is readable" - GetFile included; seeded C11-m11 never created it)
+		mk("", "p1,0|f1;b1", "dfs:empty-output-vs-lookups"),
+		mk("", "p1,0;f1;b1|p2,0;f2", "dfs:empty-output-two-ids"),
 	}
 }
 
@@ -405,6 +409,7 @@ func windowConfigs() []c11scn {
 		mk("p1,3", "p1,3|p1,3|b1;f1", "window:restore-twice"),
 		mk("p1,6", "p1,3|p1,3|f1;b1", "window:overwrite-twice"),
 		mk("", "p1,7|p1,7|f1;b1", "window:multi-chunk-same-content"),
+		mk("", "p1,0|p2,0|f1;b1;f2", "window:empty-output-two-ids"),
 		// one writer's source fails on its second pass (restricted oracle, see oracleC11)
 		mk("", "p1,3|P2,3,e0|b1;g1;b2", "window:failing-writer-second"),
 		mk("", "P2,3,e1|p1,3|b1;g1;b2", "window:failing-writer-first"),
